@@ -119,6 +119,8 @@ def gen_payload(shape, dtype, seed, cls="noise", mag=1.0):
         t = 3.0 + 0.1 * torch.randn(shape, generator=g, dtype=torch.float32)
     elif cls == "const":
         t = torch.full(shape, 0.5, dtype=torch.float32)
+    elif cls == "zeros":
+        t = torch.zeros(shape, dtype=torch.float32)  # a padding-only batch
     elif cls == "zero_rows":
         t = torch.randn(shape, generator=g, dtype=torch.float32)
         if t.ndim >= 1 and t.shape[0] > 1:
